@@ -30,7 +30,8 @@ META = {
         'alternation, anchored version regex.  (D5) every piece of a multi-grid document is parsed on every returning path of parser.parse (path enumeration; `single` only selects from the parsed list).  (D6) no regex applied to the text on the ZINC path has a repeat with an iteration-ambiguous body (exponential backtracking).  Also (D4): version.VERSION_RE accepts only texts starting with a digit; (D3) no grammar element reachable from the scalar alternations uses pyparsing\'s error stop (`-`) unless parse_scalar converts ParseFatalException.  Not decided: termination of the grammar recursion; that line/col lie within the text.'
         ' Also (D3): iso8601.parse_date is not told default_timezone=None (the naive-stamp branch of _parse_datetime calls a method pytz does not have).  (D4) Grid.__init__ hands every version other than None to Version() -- decision table of the guard over None, the empty text, 2.0 -- the only check a nested grid header gets.'
         ' Also (D4): IGNORECASE regexes are modelled (case closure), so an escape alternative widened by a flag is seen by the envelope.'
-        ' Also (D3): an escape look-up table covers every escape character the token regexes allow.  (D4) reference names stay inside the Haystack reference alphabet.'),
+        ' Also (D3): an escape look-up table covers every escape character the token regexes allow.  (D4) reference names stay inside the Haystack reference alphabet.'
+        ' Round 9: (D5) next(iter(map(parse, pieces)), None) is the first-piece-only form: later pieces are never parsed.'),
     'rule_text': 'obligations = wrapper facts, calls inside handlers x may-raise table, parse actions x may-raise table, '
                  'envelopes',
     'trusted_base': ['spec/may_raise.json (library exception facts); logging calls do not raise'],
